@@ -655,19 +655,67 @@ func c03RunStarter(s c03Starter, sur sletter, split bool) explore.Result {
 	return res
 }
 
+// ---- an earlier message of the same kind -----------------------------------------------------------
+//
+// "Message by message": how a Bind is interpreted depends on that Bind alone, not on the counts and codes of a
+// Bind the connection processed before it.
+
+func c03RunBindAfterBind(fa, na, fb, nb int) explore.Result {
+	var res explore.Result
+	res.Outcome = "earlier-message"
+	res.Key = fmt.Sprint("bind-after-bind", fa, na, fb, nb)
+	bind := func(f, n int, tag string) []byte {
+		pf := make([]int16, f)
+		for i := range pf {
+			pf[i] = int16((i + 1) % 2) // text, binary, text ... for f >= 2; binary for f == 1
+			if f == 1 {
+				pf[i] = 1
+			}
+		}
+		vals := make([][]byte, n)
+		for i := range vals {
+			vals[i] = []byte(fmt.Sprintf("%s%d", tag, i))
+		}
+		return pgproto.Bind("p", "s", pf, vals, nil)
+	}
+	mark := "select $1 mark"
+	tail := pgproto.Cat(pgproto.Query(mark), bind(fb, nb, "b"), pgproto.Execute("p", 0), pgproto.Sync())
+	head := pgproto.Cat(pgproto.Startup("user", "u"), pgproto.Parse("s", "select $1, $2, $3"))
+	with := c04Run(false, c04Feed{Stream: pgproto.Cat(head, bind(fa, na, "a"), pgproto.Execute("p", 0), pgproto.Sync(), tail)}, false)
+	without := c04Run(false, c04Feed{Stream: pgproto.Cat(head, pgproto.Sync(), tail)}, false)
+	if with.engine != "" || without.engine != "" {
+		res.Engine = with.engine + without.engine
+		return res
+	}
+	after := func(ev []string) []string {
+		for i, e := range ev {
+			if strings.Contains(e, mark) {
+				return ev[i:]
+			}
+		}
+		return nil
+	}
+	a, b := after(with.events), after(without.events)
+	if !sameStrings(a, b) {
+		res.Fail("earlier-message-leaked", fmt.Sprintf("Bind with %d parameter format codes and %d values: the statement observed\n  %v\nwhen a Bind with %d codes and %d values had been processed before it on the connection, but\n  %v\nwithout that earlier Bind", fb, nb, a, fa, na, b))
+	}
+	res.Trans = []string{fmt.Sprintf("bound(%d,%d)|bind(%d,%d)|bound", fa, na, fb, nb)}
+	return res
+}
+
 func init() {
 	explore.Register(&explore.Check{
 		ID:          "C03",
 		Level:       "model_checking",
 		Technique:   "exhaustive enumeration of cut positions (deviation = one cut) over a corpus of client byte streams on a real server (differential against the un-cut delivery), of surplus-carrying messages followed by a probe, and explicit-state enumeration of message bodies x accessor sequences on buffer.Reader against an independent cursor model",
-		Rule:        "segmentation: streams = startup + every history of <= 3 letters over 12 letters (incl. surplus-carrying, oversized, COPY, truncated); read sizes 1/2/3, every single cut, every double cut (all pairs for streams <= 64 bytes, else within +-6 bytes of a message boundary), thorough: triple cuts inside every header; isolation: 16 surplus variants x prefixes of <= 1 letter; declared length: 6 positions (first, after a query, in a batch, in text / binary COPY, awaiting the password) x 15 message types x 15 declared lengths (limit+5 ... 2^31-1, 2^31, 2^31+24, 2^32-1) x {0,1,40} framed queries behind the header then EOF; starter surplus: 5 statement-starting messages (Query / Execute starting text / binary COPY) x 9 surplus contents, callbacks compared with the surplus-free run; accessors: all bodies of length <= 5 over {00,01,'a',FF} x all accessor sequences of length <= 4 (thorough 5) over 8 accessors",
+		Rule:        "segmentation: streams = startup + every history of <= 3 letters over 12 letters (incl. surplus-carrying, oversized, COPY, truncated); read sizes 1/2/3, every single cut, every double cut (all pairs for streams <= 64 bytes, else within +-6 bytes of a message boundary), thorough: triple cuts inside every header; isolation: 16 surplus variants x prefixes of <= 1 letter; declared length: 6 positions (first, after a query, in a batch, in text / binary COPY, awaiting the password) x 15 message types x 15 declared lengths (limit+5 ... 2^31-1, 2^31, 2^31+24, 2^32-1) x {0,1,40} framed queries behind the header then EOF; starter surplus: 5 statement-starting messages (Query / Execute starting text / binary COPY) x 9 surplus contents, callbacks compared with the surplus-free run; earlier message: every Bind shape (0-4 format codes x 0-4 values) processed before every well-formed Bind, what the statement observes compared with the run without the earlier Bind; accessors: all bodies of length <= 5 over {00,01,'a',FF} x all accessor sequences of length <= 4 (thorough 5) over 8 accessors",
 		Assumptions: []string{"accessor results after the first error and negative sizes are outside the quantifier", "a surplus-carrying message may be rejected by closing the connection (nothing can leak then)"},
 		Enumerate:   c03Enumerate,
 		Bounds: func(tier string) map[string]any {
 			a, b := c03Depths(tier)
 			return map[string]any{"history_depth_single_cut": a, "history_depth_double_cut": b, "accessor_sequence_length": c03AccDepth(tier), "body_length": 5}
 		},
-		RequiredOutcomes: []string{"segmentation", "isolation", "accessors", "declared-length", "starter-surplus"},
+		RequiredOutcomes: []string{"segmentation", "isolation", "accessors", "declared-length", "starter-surplus", "earlier-message"},
 	})
 }
 
@@ -713,6 +761,23 @@ func c03Enumerate(tier string, emit explore.Emit) {
 							return map[string]any{"position": pos.Name, "type": string(t), "declared_length": d, "framed_queries_following": frames}
 						},
 						Run: func() explore.Result { return c03RunDeclared(pos, t, d, frames) }})
+				}
+			}
+		}
+	}
+	for fa := 0; fa <= 4; fa++ {
+		for na := 0; na <= 4; na++ {
+			for fb := 0; fb <= 4; fb++ {
+				for nb := 0; nb <= 4; nb++ {
+					if fb > 1 && fb != nb { // the second Bind is well-formed: no codes, one code, or one per value
+						continue
+					}
+					fa, na, fb, nb := fa, na, fb, nb
+					emit(explore.Case{Family: "earlier-message", Size: fa + na + fb + nb,
+						Desc: func() any {
+							return map[string]any{"earlier_bind": map[string]int{"format_codes": fa, "values": na}, "bind": map[string]int{"format_codes": fb, "values": nb}}
+						},
+						Run: func() explore.Result { return c03RunBindAfterBind(fa, na, fb, nb) }})
 				}
 			}
 		}
